@@ -702,10 +702,13 @@ def build(repo, sidecar_path, extra_spec=None, reach=False):
         if item.distribute_guard:
             # `P1 | P2 | .. if G => { B }`  ->  `P1 if G => { B } P2 if G => { B } ..` (what the arm means;
             # this Verus rejects an arm that has both an or-pattern and a guard)
-            rx = re.compile(r'((?:[A-Za-z_:]+\s*\{[^{}]*\}\s*\|\s*)+[A-Za-z_:]+\s*\{[^{}]*\})\s*if\s+([^{}=]*==[^{}=>]*?)\s*=>\s*(\{[^{}]*\})')
+            rx = re.compile(r'((?:[A-Za-z_:]+\s*\{[^{}]*\}\s*\|\s*)+[A-Za-z_:]+\s*\{[^{}]*\})\s*if\s+([^{}=]*==[^{}=>]*?)\s*=>\s*(\{[^{}]*\}|[^,{}]+,)')
             def _dist(m_):
                 alts = [a.strip() for a in m_.group(1).split('|')]
-                return '\n'.join('%s if %s => %s' % (a, m_.group(2).strip(), m_.group(3)) for a in alts)
+                body_ = m_.group(3).strip()
+                if not body_.startswith('{'):
+                    body_ = '{ %s }' % body_.rstrip(',').strip()
+                return '\n'.join('%s if %s => %s' % (a, m_.group(2).strip(), body_) for a in alts)
             text, c_ = rx.subn(_dist, text)
             if c_:
                 g.rewrites.append({'tag': item.distribute_guard, 'where': where, 'before': 'match arm `P1 | P2 | .. if G => B`', 'after': 'one arm per alternative, each with the guard G and the body B', 'count': c_})
